@@ -3,6 +3,16 @@
 import json
 
 CLAIMED = {
+ "C10": dict(
+   text="Machine-checked proof (Coq, world Q, axiom-free) about the executable model of compute_marginal (model/Marginal.v on top of the Binning, Bias and PartialDep models): every output row is the definition applied to the rows of its group "
+        "(weighted means, Bessel-corrected stderr^2, count, weights), counts and weights sum to the totals, null values keep their own group, y_pred_mean - y_obs_mean equals the Bias model's mean bias row by row, the bin_edges triple is "
+        "(lower, std^2 of the members' feature values, upper) with consecutive, disjoint bins spanning [min, max] and containing every member, the partial-dependence column equals the definitional partial dependence at each real feature value, "
+        "and the pooled category is never shown to the predictor. Tie: whole-function skeleton of compute_marginal and correspondence (every output row and every matrix handed to the predictor compared inside Coq; the real compute_bias is called on the same input). "
+        "Genuine defects found and repaired: pooled-category detection (fix 7801489), float grid truncation (fix 6654639).",
+   note="Partial: sqrt exposed squared; infinite and Boolean feature values are outside the model; the predictor is assumed row-wise; numpy's Generator.choice is an oracle (indices drawn by the harness with the documented call); "
+        "permutation invariance is stated after binning; polars' group_by engine is tied by correspondence only.",
+   technique="Coq proof (list induction over the shared group machinery) + whole-function skeleton + exact correspondence with recording predictor", ref="4 C10"),
+
  "C20": dict(
    text="Machine-checked proof (Coq, axiom-free) about model/Validate.v, an abstract argument descriptor (level as a rational, functional / bin-method class, n_bins, the lengths, weight rank and sign class, scoring kind) and, per entry point (18 of them), "
         "the outcome Ok | ValueError | NotImplementedError | other in the order the real prelude tests: validate_ok_iff (the EXACT accept set), constraint_enforced, constraint_value_error (ValueError, resp. NotImplementedError for weighted quantile regression, "
